@@ -123,6 +123,19 @@ pub fn rich_docs() -> Vec<ADoc> {
     d.mid.push(pi("pm", Some("d")));
     d.post.push(com("post"));
     v.push(d);
+    // D9 empty CDATA sections: alone in an element, between elements, next to text (no text node is empty in the data model)
+    v.push(doc(el(
+        "r",
+        vec![],
+        vec![
+            ANode::CData("".into()),
+            e("a", vec![], vec![ANode::CData("".into())]),
+            ANode::CData("".into()),
+            ANode::CData("".into()),
+            e("b", vec![], vec![tx("x"), ANode::CData("".into())]),
+            e("c", vec![], vec![ANode::CData("".into()), ANode::CData("y".into())]),
+        ],
+    )));
     v
 }
 
